@@ -26,6 +26,20 @@ KeySchedule(suite, mode, ss, info, psk, pskId) ==
          bn  |-> LabeledExpand(h, sid, sec, L_base_nonce, ksc, Nn(suite[3])),
          exp |-> LabeledExpand(h, sid, sec, L_exp, ksc, Nh(h))]
 
+(***************************************************************************)
+(* Mis-wirings of the PSK inputs (C15): what the key schedule would be if  *)
+(* the bundle's two fields were connected differently.  "rfc" is the real  *)
+(* one.  Used only to IDENTIFY a deviation, never as a prediction.         *)
+(***************************************************************************)
+WiringHyps == {"rfc", "swap", "nopsk", "noid", "pskboth", "idboth"}
+KeyScheduleH(hyp, suite, mode, ss, info, psk, pskId) ==
+    CASE hyp = "rfc"     -> KeySchedule(suite, mode, ss, info, psk, pskId)
+      [] hyp = "swap"    -> KeySchedule(suite, mode, ss, info, pskId, psk)
+      [] hyp = "nopsk"   -> KeySchedule(suite, mode, ss, info, <<>>, pskId)
+      [] hyp = "noid"    -> KeySchedule(suite, mode, ss, info, psk, <<>>)
+      [] hyp = "pskboth" -> KeySchedule(suite, mode, ss, info, psk, psk)
+      [] hyp = "idboth"  -> KeySchedule(suite, mode, ss, info, pskId, pskId)
+
 \* ComputeNonce(seq) = base_nonce XOR I2OSP(seq, Nn); seq is an 8-byte counter (deviation D1)
 ComputeNonce(aead, bn, seq) == BXor(bn, Lit(Zeros(Nn(aead) - 8) \o seq))
 
